@@ -559,6 +559,46 @@ PROPS["C07"] = dict(
     relevant=lambda e: e.get("cfg", {}).get("kind") == "omit" or any(m.startswith("req") for m in e.get("cfg", {}).get("msgs", [])),
 )
 
+
+# ------------------------------------------------------------------ glue (Glue.tla): C17
+def glue_to_sched(g, consts):
+    ms = g["methods"]
+    names = ["".join(m["name"]) for m in ms]
+    variants = ["".join(m["variant"]) for m in ms]
+    if any(n in ("new", "serve") for n in names):
+        reason = "reserved"
+    elif len(set(variants)) < len(variants):
+        reason = "collision"
+    else:
+        reason = "ok"
+    sig = "+".join(sorted("%d%s%s" % (m["nargs"], m["argty"][0], m["ret"][0]) for m in ms))
+    raw = any(m.get("raw") for m in ms)
+    tags = ("acc" if g["accepted"] else "rej", reason, str(len(ms)), "raw" if raw else "plain", sig if reason == "ok" and len(ms) == 1 else "")
+    return dict(cfg={"methods": ms, "accepted": g["accepted"]}, steps=[], tags=tags)
+
+
+def _glue_runner(wd, scheds, seed, tier):
+    import glue
+    return glue.run_glue(wd, scheds, seed, tier)
+
+
+PROPS["C17"] = dict(
+    level="exploration", verdict="Verdict_C17",
+    rule=("service definitions enumerated by Glue.tla (1-2 methods; names a, b, ab, a_b, a__b, _a_b, a_b_, aB, Ab, a1, r#fn, new, serve; 0-2 arguments of equal or "
+          "differing types; unit / i32 / String results), sampled round-robin over (accepted?, name, signature) classes; each accepted shape is compiled with "
+          "the real macro and every method is called through the generated client with position-distinct argument values and a call-distinct deadline; "
+          "each rejected shape is compile-checked; non-trivial = any; distinct by shape"),
+    assumptions=["'every definition the macro accepts' is an infinite set of programs; this is the bounded family chosen by the model (no cfg'd methods, "
+                 "attributes or derive options yet)",
+                 "compile-must-fail is a build probe (cargo check --keep-going), not TLA+",
+                 "for raw identifiers both '<Service>.name' and '<Service>.r#name' are accepted as the reported name"],
+    models=[dict(module="MC_Glue", name="shapes", constants=dict(MaxMethods=2), quick={}, thorough={}, invariants=["Law_S2C"], coverage=False)],
+    families=[dict(family="glue", trace_module="Trace_Glue", runner=_glue_runner, random_quick=0, random_thorough=0,
+                   exports=[dict(module="MC_Glue", name="shapes", constants=dict(MaxMethods=2), quick={}, thorough={}, invariants=("ExportJson",),
+                                 to_sched=glue_to_sched, view="", cap_quick=90, cap_thorough=700, timeout=600)])],
+    relevant=lambda e: True,
+)
+
 # ------------------------------------------------------------------ manifest texts
 def _mt(spec, what, design, note_extra=""):
     return dict(
@@ -634,6 +674,16 @@ MANIFEST_TEXT = {
         design_ref="DESIGN.md section 6, C07",
         note="Exploration level: single hops are executed; multi-hop composition is established on the model only.",
         technique="TLA+ arithmetic law checked by TLC + single-hop executions under a virtual clock + TLC trace validation",
+    ),
+    "C17": dict(
+        text=("Glue.tla transcribes the macro's naming pipeline (unraw, snake_to_camel character by character, reserved names) and TLC enumerates service "
+              "shapes with the predicted variants and accept/reject outcome. Every sampled accepted shape is turned into a real #[tarpc::service] "
+              "definition, compiled and executed end to end (generated client -> in-memory transport -> generated serve glue -> implementor) with "
+              "argument values that expose any permutation or sibling mix-up, and TLC checks the recorded calls (Trace_Glue); rejected shapes must fail "
+              "to compile."),
+        design_ref="DESIGN.md section 6, C17",
+        note="Exploration level over a bounded family of programs. Trusted: the generator tools/glue.py, rustc.",
+        technique="TLA+ enumeration of program shapes + generated programs executed + TLC trace validation",
     ),
     "C12": _mt("Server.tla with MaxRequests L in {0,1,2}", "Inv_C12 on ObsServer (yield only with fewer than L others tracked at the read instant; refusal only with at least L others; each refusal answered once with WouldBlock and never executed).", "DESIGN.md section 6, C12", "Carries known finding F7 by signature."),
 }
